@@ -50,7 +50,7 @@ class Bits(AV):
         self.opaque = tuple(opaque)
 
     def __repr__(self):
-        return "Bits(%#04x%s)" % (self.mask, "".join("|" + o for o in self.opaque))
+        return "Bits(%#04x%s)" % (self.mask, "".join("|" + repr(o) for o in self.opaque))
 
 
 class Ctor(AV):
@@ -142,6 +142,27 @@ def parse_atom(atom):
     return r
 
 
+def atom_holds(kind, s):
+    if kind[0] == "in":
+        return kind[1] in s
+    if kind[0] == "eq":
+        return s == kind[2]
+    if kind[0] == "ne":
+        return s != kind[2]
+    return None
+
+
+def candidates(conds, var, universe):
+    """members of the universe consistent with every string atom on var"""
+    cs = []
+    for a, t in conds:
+        k = parse_atom(a)
+        v = k[2] if k[0] == "in" else (k[1] if k[0] in ("eq", "ne") else None)
+        if v == var:
+            cs.append((k, t))
+    return [s for s in universe if all(atom_holds(k, s) == t for k, t in cs)]
+
+
 class Outcome:
     def __init__(self, kind, path, value, node):
         self.kind = kind        # 'return' | 'raise' | 'fall'
@@ -155,7 +176,7 @@ class Outcome:
 
 
 class Interp:
-    def __init__(self, fn_node, consts=None, maxpaths=20000, sym_attrs=(), init_env=None, hooks=None):
+    def __init__(self, fn_node, consts=None, maxpaths=20000, sym_attrs=(), init_env=None, hooks=None, universes=None):
         """sym_attrs: attribute-text suffixes to be treated as Lin symbols (e.g. '_sz')."""
         self.fn = fn_node
         self.results = []
@@ -165,6 +186,7 @@ class Interp:
         self.init_env = init_env or {}
         self.hooks = hooks or {}      # call-text -> callable(interp, path, node) -> AV
         self.stmt_events = []         # (path-id unaware) list of (event, node) for callers who need effects
+        self.universes = universes or {}   # string variable text -> finite list of candidate strings (feasibility filter)
 
     # ---- helpers
     def key(self, p, node):
@@ -380,7 +402,13 @@ class Interp:
         ln = getattr(n, "lineno", 0)
         a.trace.append((ln, True))
         b.trace.append((ln, False))
-        return [(a, True), (b, False)]
+        out = [(a, True), (b, False)]
+        if self.universes:
+            k = parse_atom(atom)
+            var = k[2] if k[0] == "in" else (k[1] if k[0] in ("eq", "ne") else None)
+            if var in self.universes:
+                out = [(q, t) for q, t in out if candidates(q.conds, var, self.universes[var])]
+        return out
 
     # ---- statements
     def assign(self, p, target, val):
@@ -420,13 +448,13 @@ class Interp:
                     elif isinstance(cur, Const) and isinstance(cur.v, int):
                         b = Bits(cur.v)
                     else:
-                        b = Bits(0, (repr(cur),))
+                        b = Bits(0, (cur,))
                     if isinstance(r, Const) and isinstance(r.v, int):
                         nv = Bits(b.mask | r.v, b.opaque)
                     elif isinstance(r, Bits):
                         nv = Bits(b.mask | r.mask, b.opaque + r.opaque)
                     else:
-                        nv = Bits(b.mask, b.opaque + (repr(r),))
+                        nv = Bits(b.mask, b.opaque + (r,))
                 elif isinstance(s.op, (ast.Add, ast.Sub)):
                     l, rr = self.aslin(cur), self.aslin(r)
                     sg = 1 if isinstance(s.op, ast.Add) else -1
